@@ -156,6 +156,97 @@ func genC09(e *emitter, tier string) {
 			}
 		}
 	}
+	// ArgMax on float special values: every lane of length 3 (and a sample of length 4) over {NaN, +Inf, -Inf,
+	// +0, -0, 1, 2}, as the rows (axis 1 / -1) or the columns (axis 0) of one tensor. Lanes on which gorgonia's
+	// scan (it returns at the first NaN / +Inf behind position 0) agrees with numpy.argmax and lanes on which it
+	// does not go into separate tensors, so that the recorded finding covers only the latter.
+	{
+		nan, inf := math.NaN(), math.Inf(1)
+		pool := []float64{nan, inf, -inf, 0, math.Copysign(0, -1), 1, 2}
+		gorg := func(l []float64) int {
+			best, bi := l[0], 0
+			for i := 1; i < len(l); i++ {
+				if math.IsNaN(l[i]) || math.IsInf(l[i], 1) {
+					return i
+				}
+				if l[i] > best {
+					best, bi = l[i], i
+				}
+			}
+			return bi
+		}
+		numpy := func(l []float64) int {
+			for i, v := range l {
+				if math.IsNaN(v) {
+					return i
+				}
+			}
+			bi := 0
+			for i, v := range l {
+				if v > l[bi] {
+					bi = i
+				}
+			}
+			return bi
+		}
+		for _, L := range []int{3, 4, 2} {
+			var same, diff [][]float64
+			n := 1
+			for i := 0; i < L; i++ {
+				n *= len(pool)
+			}
+			for c := 0; c < n; c++ {
+				if L == 4 && c%5 != 0 {
+					continue
+				}
+				l := make([]float64, L)
+				x := c
+				for i := range l {
+					l[i] = pool[x%len(pool)]
+					x /= len(pool)
+				}
+				if gorg(l) == numpy(l) {
+					same = append(same, l)
+				} else {
+					diff = append(diff, l)
+				}
+			}
+			for gi, lanes := range [][][]float64{same, diff} {
+				if len(lanes) == 0 {
+					continue
+				}
+				stream := []string{"argmax-float", "argmax-float-early-exit"}[gi]
+				rows := make([]float64, 0, len(lanes)*L)
+				cols := make([]float64, len(lanes)*L)
+				for r, l := range lanes {
+					rows = append(rows, l...)
+					for k, v := range l {
+						cols[k*len(lanes)+r] = v
+					}
+				}
+				for _, dt := range []string{"f32", "f64"} {
+					for _, keep := range []int64{0, 1} {
+						e.emit(opCase(stream, "ArgMax", []Attr{{Name: "axis", Type: "i", I: 1}, {Name: "keepdims", Type: "i", I: keep}}, []*TJ{fT(dt, []int{len(lanes), L}, rows)}, nil))
+						e.emit(opCase(stream, "ArgMax", []Attr{{Name: "axis", Type: "i", I: -1}, {Name: "keepdims", Type: "i", I: keep}}, []*TJ{fT(dt, []int{1, len(lanes), L}, rows)}, nil))
+						e.emit(opCase(stream, "ArgMax", []Attr{{Name: "axis", Type: "i", I: 0}, {Name: "keepdims", Type: "i", I: keep}}, []*TJ{fT(dt, []int{L, len(lanes)}, cols)}, nil))
+					}
+				}
+			}
+		}
+	}
+	// every element type at the gate of every operator of the family: the admitted ones compute, the others
+	// are refused (the pinned table of Spec/Types.lean decides which are which)
+	for _, dt := range allDts {
+		x := seqT(dt, []int{2, 3}, func(i int) float64 { return float64((i * 3) % 4) })
+		e.emit(opCase("dtypes", "ArgMax", []Attr{{Name: "axis", Type: "i", I: 1}}, []*TJ{x}, nil))
+		for _, op := range []string{"ReduceMax", "ReduceMin"} {
+			e.emit(opCase("dtypes", op, []Attr{{Name: "axes", Type: "ints", Ints: []int64{1}}, {Name: "keepdims", Type: "i", I: 0}}, []*TJ{x}, nil))
+			e.emit(opCase("dtypes", op, []Attr{{Name: "axes", Type: "ints", Ints: []int64{0}}}, []*TJ{x}, nil))
+		}
+		for _, op := range []string{"Softmax", "LogSoftmax"} {
+			e.emit(opCase("dtypes", op, []Attr{{Name: "axis", Type: "i", I: 1}}, []*TJ{x}, nil))
+		}
+	}
 	// NaN ties in ArgMax are outside the exact regime; integer dtypes the gate refuses
 	e.emit(opCase("gate", "ArgMax", nil, []*TJ{iota1("i8", 2, 2)}, nil))
 	e.emit(opCase("gate", "Softmax", nil, []*TJ{iota1("i32", 2, 2)}, nil))
